@@ -162,15 +162,118 @@ def rule_forbidden_and_revert(ctx):
     ctx.check("revert_optional_steps" in ast.unparse(bf.node), bf.fq, "unneeded optional outputs are reverted at the end of an unrestricted build", "never reverted", "(guards in R-C06-4)")
 
 
+def _state_name(node):
+    """StepState.X -> 'X'; anything else -> None."""
+    if isinstance(node, ast.Attribute) and isinstance(node.value, ast.Name) and node.value.id == "StepState":
+        return node.attr
+    return None
+
+
+def _running_overrides(v):
+    """Spellings of 'v is RUNNING' (v ranges over CHECKING/RUNNING at the dispatch site)."""
+    return {
+        f"{v} == StepState.RUNNING": True, f"{v} is StepState.RUNNING": True, f"StepState.RUNNING == {v}": True,
+        f"{v} != StepState.RUNNING": False, f"{v} is not StepState.RUNNING": False,
+        f"{v} == StepState.CHECKING": False, f"{v} is StepState.CHECKING": False,
+        f"{v} != StepState.CHECKING": True, f"{v} is not StepState.CHECKING": True,
+    }
+
+
+def rule_running_sheds_products(ctx):
+    """R-C11-6: a step enters RUNNING only in a transaction that first removes what its previous run created.
+
+    The dispatch predicate treats the products of a RUNNING step as definitions made by the run in
+    progress.  Between the moment a step is marked RUNNING and the moment its old products are detached,
+    a step that the current plan may no longer define is dispatchable and can be executed.
+    """
+    SS = ctx.prog.enum("StepState")
+    sites = 0
+    for caller, cs_list in ctx.cg.sites.items():
+        for cs in cs_list:
+            if callee_name(cs.node) != "set_state" or not cs.node.args:
+                continue
+            fi = cs.caller
+            arg = cs.node.args[0]
+            nm = _state_name(arg)
+            if nm is None and not isinstance(arg, ast.Name):
+                continue  # File.set_state(FileState.X) and friends
+            if nm is not None and nm not in SS.__members__:
+                continue
+            if nm is not None:
+                if nm != "RUNNING":
+                    continue
+            else:
+                # a variable: which states can it hold?  (only handled: bound from a helper returning (step, state))
+                src = ast.unparse(fi.node)
+                if "FileState" in src and "StepState" not in src:
+                    continue
+            sites += 1
+            recv = ast.unparse(cs.node.func.value)
+            ok_paths, bad_paths = 0, 0
+            for tr, status in finite.feasible_paths(ctx.prog, fi, {}, _running_overrides(ast.unparse(arg)) if nm is None else {}):
+                idx = [k for k, e in enumerate(tr) if e[0] == "call" and e[2] is cs.node]
+                for k in idx:
+                    reg = flow.region_of(tr, k, lambda s_: s_.split(".")[-1] == "db")
+                    lo = reg[0] if reg else 0
+                    inside = tr[lo:k]
+                    reset = any(e[0] == "call" and e[1] == f"{recv}.reset_for_rerun" for e in inside)
+                    aw = [e for e in inside if e[0] == "await" and not e[1].startswith("<a")]
+                    if reg is not None and reset and not aw:
+                        ok_paths += 1
+                    else:
+                        bad_paths += 1
+            ctx.check(ok_paths > 0 and bad_paths == 0, fi.fq, f"{recv}.set_state({ast.unparse(arg)}) to RUNNING is preceded by {recv}.reset_for_rerun() in the same transaction", f"on {bad_paths} path(s) the step becomes RUNNING while the steps and files its previous run created are still attached: the next pop finds their creator RUNNING, takes them for safe and can execute a step that no plan defines anymore", "products of the previous run are gone before the state changes", where=ctx.where_of(fi, cs.node))
+    if sites == 0:
+        raise AnalysisError("no Step.set_state site that can write RUNNING found")
+    # the variable at the dispatch site ranges over CHECKING/RUNNING only, decided by the stored hash
+    gn = ctx.prog.func("scheduler.Scheduler._get_next_step")
+    vals = set()
+    for n in ast.walk(gn.node):
+        if isinstance(n, ast.Assign) and any(isinstance(t, ast.Name) and t.id == "state" for t in n.targets):
+            for m in ast.walk(n.value):
+                if _state_name(m):
+                    vals.add(_state_name(m))
+    ctx.check(vals == {"CHECKING", "RUNNING"}, gn.fq, "a popped step becomes CHECKING or RUNNING", f"states: {sorted(vals)}", "CHECKING | RUNNING")
+    # raw SQL writers of step.state never write RUNNING
+    R = SS.RUNNING.value
+    n_raw = 0
+    for st in ctx.sql.stmts:
+        if not any(w[0] == "UPDATE" and w[1] == "step" and w[2] == "state" and w[3] is None for w in st.writes):
+            continue
+        fq = st.site.func.fq.split(".<locals>.")[0]
+        if fq.endswith("Step.set_state"):
+            continue
+        n_raw += 1
+        flat = re.sub(r"\s+", " ", st.text)
+        m = re.search(r"SET state = (\S+)", flat)
+        val = m.group(1).rstrip(",") if m else "?"
+        if val.isdigit():
+            ctx.check(int(val) != R, fq, f"raw write of step.state = {val}", "a raw statement marks steps RUNNING without shedding their old products", "not RUNNING", where=f"stepup/core/{st.site.func.module.path.name}:{st.site.lineno}")
+        else:
+            call = getattr(st.site, "call", None)
+            src = ast.unparse(call) if call is not None else ""
+            first = None
+            if call is not None and len(call.args) > 1 and isinstance(call.args[1], (ast.Tuple, ast.List)) and call.args[1].elts:
+                first = ast.unparse(call.args[1].elts[0])
+            ctx.check(first is not None and "RUNNING" not in first, fq, f"raw write of step.state = {first or val}", f"cannot show that the written state is not RUNNING ({src[:100]})", "not RUNNING", where=f"stepup/core/{st.site.func.module.path.name}:{st.site.lineno}")
+    if n_raw < 2:
+        raise AnalysisError(f"only {n_raw} raw writers of step.state found")
+
+
 RULES = [
     Rule("R-C11-1", "threshold binding", rule_threshold, min_instances=9),
     Rule("R-C11-2", "read set and flagging of the need recomputation", rule_read_set, min_instances=10),
     Rule("R-C11-3", "one shared regular-output predicate", rule_shared_output_predicate, min_instances=7),
     Rule("R-C11-4", "pure target classifier", rule_pure_classifier, min_instances=3),
     Rule("R-C11-5", "forbidden targets and optional revert filter", rule_forbidden_and_revert, min_instances=3),
+    Rule("R-C11-6", "a step sheds the products of its previous run before it counts as running", rule_running_sheds_products, min_instances=5),
 ]
 
 MUTANTS = [
+    Mutant("running-keeps-old-products", "scheduler.py", in_function("Scheduler.pop_next_job", replace_once("                step.reset_for_rerun()\n", "                pass\n")), ("R-C11-6",)),
+    Mutant("running-sheds-after-state", "scheduler.py", in_function("Scheduler.pop_next_job", lambda s: s.replace("            step.set_state(state)\n", "", 1).replace("            if state == StepState.RUNNING:\n", "            step.set_state(state)\n            if state == StepState.RUNNING:\n", 1) if "            if state == StepState.RUNNING:\n" in s else None), ("R-C11-6",)),
+    Mutant("checking-sheds-instead", "scheduler.py", in_function("Scheduler.pop_next_job", replace_once("            if state == StepState.RUNNING:\n", "            if state == StepState.CHECKING:\n")), ("R-C11-6",)),
+    Mutant("startup-marks-running", "startup.py", in_function("reset_interrupted_steps", replace_once("(StepState.PENDING.value, StepState.CHECKING.value)", "(StepState.RUNNING.value, StepState.CHECKING.value)")), ("R-C11-6",)),
     Mutant("reconcile-before-resume", "director.py", in_function("serve", lambda s: s.replace("    if initialized:\n        await reporter(\"STARTUP\", \"(Re)initialized boot script\")\n    else:\n        await resume_from_db(handler.workflow, reporter, handler.builder)\n", "", 1).replace("    await _run_tasks(", "    if initialized:\n        await reporter(\"STARTUP\", \"(Re)initialized boot script\")\n    else:\n        await resume_from_db(handler.workflow, reporter, handler.builder)\n    await _run_tasks(", 1) if "        await resume_from_db(handler.workflow, reporter, handler.builder)\n" in s else None), ("R-C11-2",)),
     Mutant("targets-after-cd", "tui.py", in_function("_async_build", lambda s: s.replace("    targets, target_dirs = _normalize_targets(args.targets, stepup_root)\n", "", 1).replace("    _reset_stepup_dir()\n", "    targets, target_dirs = _normalize_targets(args.targets, stepup_root)\n    _reset_stepup_dir()\n", 1) if "    targets, target_dirs = _normalize_targets(args.targets, stepup_root)\n" in s and "    _reset_stepup_dir()\n" in s else None), ("R-C11-4",)),
     Mutant("edge-delete-skips-suppliers", "step.py", replace_once("    UPDATE step SET _check_after = 1\n    WHERE node IN (SELECT source FROM dependency WHERE sink = OLD.source);\n", ""), ("R-C11-2",)),
@@ -187,4 +290,7 @@ MUTANTS = [
     Mutant("revert-by-declared-need", "finalize.py", replace_once("WHERE _implied_need = {Need.OPTIONAL.value}\nAND NOT node.detached", "WHERE need = {Need.OPTIONAL.value}\nAND NOT node.detached"), ("R-C11-5",)),
 ]
 
-VARIANTS = []
+VARIANTS = [
+    Variant("running-test-by-identity", "scheduler.py", in_function("Scheduler.pop_next_job", replace_once("            if state == StepState.RUNNING:\n", "            if state is not StepState.CHECKING:\n"))),
+    Variant("shed-before-deriving-flag", "scheduler.py", in_function("Scheduler.pop_next_job", lambda s: s.replace("            if state == StepState.RUNNING:\n", "            goes_running = state == StepState.RUNNING\n            if goes_running:\n", 1) if "            if state == StepState.RUNNING:\n" in s else None)),
+]
